@@ -139,6 +139,10 @@ def build(solver, df, pen, P_, storage, icpt, tol, rng_knobs):
     return np.asarray(w, float), float(stop), R.RefProblem(X, y, refdf, refpen, real_icpt)
 
 
+# solvers whose steps are 1 / (curvature of one coordinate): invariant to the unit in which a column is expressed
+SCALE_INVARIANT = ("AndersonCD", "GramCD", "ProxNewton", "MultiTaskBCD")
+
+
 def one(emit, cid, solver, df, pen, sym, rng, sample):
     info = K.SOLVER_INFO[solver]
     n, p = int(rng.integers(14, 36)), int(rng.integers(4, 12))
@@ -164,6 +168,8 @@ def one(emit, cid, solver, df, pen, sym, rng, sample):
         knobs["max_epochs"] = 5000
     knobs["max_iter"] = {"FISTA": 20000, "GramCD": 10000}.get(solver, 300)
     P0 = Prob(X, y, alpha, wts, groups, gw)
+    tol0 = tol1 = tol
+    tight = False
     # ------------------------------------------------------------------ transformation
     if sym == "feature_perm":
         perm = rng.permutation(p)
@@ -199,16 +205,30 @@ def one(emit, cid, solver, df, pen, sym, rng, sample):
         mapw = lambda w: w * c  # noqa
     else:   # column_scale
         cs = 10 ** rng.uniform(-1.5, 1.5, size=p)
-        if rng.random() < 0.5:
+        r_ = [0.5, 0.1, 0.9][int(cid.rsplit("/r", 1)[1]) % 3]       # variants in rotation: tight, extreme unit, plain
+        if r_ < 0.35:
             cs[int(rng.integers(0, p))] = 10.0 ** float(rng.choice([-6.0, -4.0, 4.0]))     # one feature in a very different unit
+        elif r_ < 0.7 and solver in SCALE_INVARIANT:
+            # "tight" variant.  A tol-certificate in the new units is cs_j times the one in the old units, so with the
+            # same tol a feature in a tiny unit is not constrained at all and nothing about it can be observed.  Here one
+            # feature is in a tiny unit, the others within a factor 3, and the transformed problem is solved to
+            # tol * (tiny unit) while the original is solved to a quarter of that: coordinate-wise solvers take steps
+            # 1/L_j and are invariant to the unit of a column, so the transformed run is never the harder one.
+            cs = 10 ** rng.uniform(-0.5, 0.5, size=p)
+            jt = int(rng.integers(0, p))
+            cs[jt] = 10.0 ** float(rng.choice([-5.0, -4.0, -3.0]))
+            tol = 1e-6
+            tol1 = tol * float(cs[jt])
+            tol0 = tol1 / 4
+            tight = True
         P1 = Prob(np.asfortranarray(X * cs), y, alpha, wts * cs, groups, gw)
         mapw = lambda w: np.r_[w[:p] / cs, w[p:]]  # noqa
     cell = "%s|%s|%s|%s|%s" % (solver, df, pen, sym, storage)
     base = dict(id=cid, cell=cell, digest=digest(cid, small(X, 3)))
     common = dict(solver=solver, datafit=df, penalty=pen, symmetry=sym, storage=storage, fit_intercept=icpt)
     try:
-        w0, s0, prob0 = build(solver, df, pen, P0, storage, icpt, tol, knobs)
-        w1, s1, prob1 = build(solver, df, pen, P1, storage, icpt, tol, knobs)
+        w0, s0, prob0 = build(solver, df, pen, P0, storage, icpt, tol0, knobs)
+        w1, s1, prob1 = build(solver, df, pen, P1, storage, icpt, tol1, knobs)
     except Exception as e:
         emit(dict(base, status="violated", nontrivial=True,
                   viol=dict(common, mechanism="solve-raises", exc=type(e).__name__, detail=repr(e)[:300])))
@@ -226,20 +246,23 @@ def one(emit, cid, solver, df, pen, sym, rng, sample):
         return mapw(np.asarray(w))
     Tw = mapfull(w0)
     viols = []
-    conv = s0 <= tol and s1 <= tol
+    conv = s0 <= tol0 and s1 <= tol1
     c1 = prob1.cert_subdiff(w1)[0]
     cT = prob1.cert_subdiff(Tw)[0]
     gs = 1e-10 * (1 + float(np.max(np.abs(prob1.gradient(w1))))) + prob1.dot_error_bound(w1)
-    if s1 <= tol and solver != "FISTA" and not R.leq(c1, tol * (1 + 1e-6) + gs, rel=0.0):
-        viols.append(dict(common, mechanism="transformed-problem-solution-fails-certificate", cert=c1, tol=tol,
+    if s1 <= tol1 and solver != "FISTA" and not R.leq(c1, tol1 * (1 + 1e-6) + gs, rel=0.0):
+        viols.append(dict(common, mechanism="transformed-problem-solution-fails-certificate", cert=c1, tol=tol1,
                           detail="stop=%.3g <= tol but reference violation on the transformed problem = %.3g" % (s1, c1)))
-    for which, st_ in (("original", s0), ("transformed", s1)):
-        if not st_ <= tol and solver != "FISTA":
+    for which, st_, tl_ in (("original", s0, tol0), ("transformed", s1, tol1)):
+        if tight and (which == "original" or not s0 <= tol0):
+            continue        # tight variant: only "the original converges at tol0 but its image does not at 4 tol0" is judged
+        if not st_ <= tl_ and solver != "FISTA":
             # bounded progress: both are small problems with budgets far above what they need; a symmetric image
             # that cannot be solved while the original can (or vice versa) is not "the same problem"
             viols.append(dict(common, mechanism="does-not-converge-within-budget", which=which, stop=float(st_),
+                              tight=tight,
                               detail="%s problem: stop_crit=%.3g > tol=%g after the generous budget (other side: %.3g)" % (
-                                  which, st_, tol, s1 if which == "original" else s0)))
+                                  which, st_, tl_, s1 if which == "original" else s0)))
     if conv:
         F1, FT = prob1.objective(w1), prob1.objective(Tw)
         if prob1.pen.convex:
@@ -250,7 +273,7 @@ def one(emit, cid, solver, df, pen, sym, rng, sample):
                                   detail="F'(w')=%.12g, F'(T w)=%.12g, certified margin %.3g (certs %.3g / %.3g)" % (
                                       F1, FT, margin, c1, cT)))
     rec = dict(base, nontrivial=bool(conv and np.any(w1 != 0)), count=dict(pairs=1, converged_pairs=int(conv)),
-               hist={"symmetry": sym})
+               hist={"symmetry": sym + ("/tight" if tight else "")})
     if viols:
         rec.update(status="violated", viol=viols[0], viols=viols,
                    obs=dict(n=n, p=p, alpha=alpha, weights=small(wts, 12), groups=[g.tolist() for g in groups],
